@@ -17,7 +17,7 @@ import (
 // test its own function shows to be necessary.
 func c07TestedPositions(c *core.Check, scope []*ssa.Function) {
 	p := c.Prog
-	r := c.Rule("R9", "a position tested once is tested at every read: when a function compares a position v with the length of a buffer, every read buffer[v] at that same value in the function is reachable only after a comparison that excludes v >= len(buffer) (v < len true, v >= len false, v != len true, v == len false, and their mirrored forms)", 150)
+	r := c.Rule("R9", "a position tested once is tested at every read: when a function compares a position v with the length of a buffer, every read buffer[v] at that same value in the function is reachable only after a comparison that excludes v >= len(buffer) (v < len true, v >= len false, v != len true, v == len false, and their mirrored forms)", 153)
 	// identity of a buffer: the field path it is loaded from, or the value itself
 	bufKey := func(v ssa.Value) string {
 		for {
